@@ -23,6 +23,17 @@ def prefix_of(d):
     return b[: len(b) - len(os.path.splitext(b)[1])]
 
 
+def add_yaml(f):
+    """util.AddYamlExtension (fe0ec16): what jsondb.Rename applies to both names"""
+    b = os.path.basename(f)
+    e = b[b.rfind("."):] if "." in b else ""
+    if e == ".yaml":
+        return f
+    if e == ".yml":
+        return f[:-4] + ".yaml"
+    return f + ".yaml"
+
+
 def dirname_of(d):
     return prefix_of(d) + "-" + md5hex(d)
 
@@ -301,13 +312,14 @@ class Monitor:
                         self.taint.setdefault(r.d, "update-during-run")
                     break
         elif t == "rename":
-            if o["d"] in self.taint or o["d2"] in self.taint:
-                c = self.taint.get(o["d"]) or self.taint.get(o["d2"])
-                self.taint.setdefault(o["d"], c)
-                self.taint.setdefault(o["d2"], c)
+            d1, d2 = add_yaml(o["d"]), add_yaml(o["d2"])      # Rename addresses the DAGs by their .yaml paths
+            if d1 in self.taint or d2 in self.taint:
+                c = self.taint.get(d1) or self.taint.get(d2)
+                self.taint.setdefault(d1, c)
+                self.taint.setdefault(d2, c)
             for r in self.runs:
-                if r.d == o["d"]:
-                    r.d = o["d2"]
+                if r.d == d1:
+                    r.d = d2
         elif t == "removeold":
             self.runs = [r for r in self.runs if not (r.d == o["d"] and r.mtime < o["cutoff"])]
 
@@ -373,10 +385,11 @@ class Monitor:
         fails = []
         t = o["t"]
         mine = set()
-        if t in ("open", "update", "rename", "removeold", "touch"):
+        if t in ("open", "update", "removeold", "touch"):
             mine.add(dirname_of(o["d"]))
         if t == "rename":
-            mine.add(dirname_of(o["d2"]))
+            mine.add(dirname_of(add_yaml(o["d"])))
+            mine.add(dirname_of(add_yaml(o["d2"])))
         if t in ("write", "close") and self.cur is not None:
             mine.add(dirname_of(self.cur.d))
 
